@@ -487,6 +487,28 @@ pub fn main_stateread(args: &Args) -> i32 {
             one(&mut b, format!("sr/{opn}/fail/{addr}"), cfg);
         }
     }
+    // extreme operands: addresses / counts at the i64 extremes, with and without returned values
+    for opn in ["KRNG", "KREX", "PKRNG", "PKREX"] {
+        for addr in [i64::MAX, i64::MAX - 1, i64::MIN, 7, 8] {
+            for cnt in [i64::MAX, i64::MIN, 0, 2] {
+                for ans in [vec![], vec![vec![1i64], vec![2, 3]]] {
+                    n += 1;
+                    if n % args.shard.1 != args.shard.0 {
+                        continue;
+                    }
+                    let mut st = vec![40];
+                    if opn.ends_with("EX") {
+                        st.extend([5, 6, 7, 8]);
+                    }
+                    st.extend([9, 1, cnt, addr]);
+                    let mut cfg = std_cfg(vec![ops::by_name(opn).unwrap()], Snap { st, mem: vec![3; 8], ..Default::default() });
+                    cfg.pre = view("pre", Mode::Scripted(ans.clone()));
+                    cfg.post = view("post", Mode::Scripted(ans.clone()));
+                    one(&mut b, format!("sr/extreme/{opn}/{addr}/{cnt}/{}", ans.len()), cfg);
+                }
+            }
+        }
+    }
     // random requests at larger sizes through the faithful map state
     let count = if args.thorough { 20000 } else { 2500 };
     for i in 0..count {
